@@ -1,0 +1,14 @@
+//go:build verif
+
+package kv
+
+// This file only exists under the build tag "verif" (external verification harness, check C04).
+
+// VerifRollupIdle reports whether the family has no rollup job marked as running.
+// family.rollup() releases the wait group (VerifWaitIdle returns) just before it clears the
+// running flag; a caller that wants to trigger the next job deterministically waits for this
+// to become true first, otherwise the next family.rollup() may be a silent no-op.
+func VerifRollupIdle(f Family) bool {
+	ff, ok := f.(*family)
+	return !ok || !ff.rolluping.Load()
+}
